@@ -97,6 +97,9 @@ def weird_requests(rng, w, n):
             for _ in range(rng.randrange(1, 4)):
                 q2 = base + [(a, b) for a, b in [("page", rng.choice(nums)), ("cache", rng.choice([None, None] + digs + subs))] if b is not None]
                 out.append(raw(rng.choice(["GET", "GET", "HEAD"]), path, urllib.parse.urlencode(q2), {}, b"", model=False))
+            # pages of exactly the response that is current (cache=<digest of the listing>): at, below and beyond the last page
+            out.append(dict(kind="refpages", model="(skip)", method="GET", path=path,
+                            impl=dict(op="refpages", path=path, query=urllib.parse.urlencode(base), names=["1", "0", "2", "3", "17"])))
             q = base + [("page", rng.choice(nums))]
             model = False      # paging of referrers responses is checked by C07
         elif k == 8:
@@ -114,6 +117,14 @@ def weird_requests(rng, w, n):
 
 def oracle(ctx, case, io):
     for k, (st, res) in enumerate(zip(case["steps"], io["steps"])):
+        if st["kind"] == "refpages" and not res.get("panic"):
+            for j, sub in enumerate((res.get("par") or [[]])[0]):
+                what = "GET %s?%s" % (st["path"], "listing" if j == 0 else "cache=<its digest>&page=%s" % st["impl"]["names"][j - 1])
+                if sub.get("panic"):
+                    ctx.violation("handler panicked on %s: %s" % (what, sub["panic"]), oracles.hist(case, k, res), "C15:panic")
+                elif sub["status"] >= 500:
+                    ctx.violation("request answered %s while storage is healthy (%s)" % (sub["status"], what), oracles.hist(case, k, res), "C15:5xx")
+            continue
         if res.get("panic") or st["impl"].get("op") not in ("http", None, ""):
             continue
         status = res["status"]
